@@ -148,6 +148,11 @@ def main(ctx):
                         properties=['Progress']),
         'chain': dict(part='chain', emit=True, bcrypt=bcrypt, maxdepth=md,
                       invariants=['TypeOK', 'ChainInv', 'EmitRows']),
+        'layout': dict(part='layout', emit=True,
+                       invariants=['TypeOK', 'UnfoldOK', 'EmitRows']),
+        's_replace_on_continue': dict(part='layout',
+                                      variant='replace_on_continue',
+                                      invariants=['UnfoldOK']),
         's_any_hash': dict(part='priv', variant='any_hash', bcrypt=bcrypt,
                            invariants=['TableEquiv']),
         's_stop_at_junk': dict(part='scanpriv', variant='stop_at_junk',
@@ -163,13 +168,14 @@ def main(ctx):
     with ThreadPoolExecutor(max_workers=4) as ex:
         futs = {n: ex.submit(tlc_part, **kw) for n, kw in jobs.items()}
         results = {n: f.result() for n, f in futs.items()}
-    expect = {'s_any_hash': 'TableEquiv', 's_stop_at_junk': 'ScanEquiv',
+    expect = {'s_replace_on_continue': 'UnfoldOK',
+              's_any_hash': 'TableEquiv', 's_stop_at_junk': 'ScanEquiv',
               's_wrong_pass': 'RoundTrip'}
     for n, res in results.items():
         ctx.require_tlc_ok(f'KeyFormats {n} {jobs[n]}', res,
                            expect_violation=expect.get(n))
     rows = {n: rows_of(results[n]) for n in
-            ('priv', 'pub', 'scanpriv', 'scanpub', 'chain')}
+            ('priv', 'pub', 'scanpriv', 'scanpub', 'chain', 'layout')}
     for n, r in rows.items():
         ctx.require(len(r) > 50, f'{n}: only {len(r)} rows from TLC')
 
@@ -465,6 +471,14 @@ def main(ctx):
                         'steps': [s[:3] for s in hist],
                         'predicted_final': hist[-1][3:] if hist else None})
     ctx.traces_validated(len(chains))
+
+    # ---- 2e. foreign writer layouts ---------------------------------------------
+    if only.kind('layout'):
+        scr = D.Scratch(tlc.WORK, 'c15_layout_')
+        try:
+            layouts(ctx, D, scr, rows['layout'], kts, quick, kf_sig, only)
+        finally:
+            scr.close()
 
     # ---- 3. independent readers / writers ---------------------------------------
     if only.kind('interop'):
@@ -873,6 +887,195 @@ def interop(ctx, D, scr, kts, quick, rnd, kf_sig):
     passphrase_sweep(ctx, D, scr, kts, quick, kf_sig, stats)
     certificates(ctx, D, scr, kts, quick, kf_sig, stats)
     ctx.notes.append(f'independent readers/writers: {stats}')
+
+
+def layouts(ctx, D, scr, rows, kts, quick, kf_sig, only):
+    """Text files as other implementations write them (RFC 4716 with folded
+    headers, PEM and one-line OpenSSH variants).  Monitor: a file an
+    independent reader accepts (and reads as the intended key) is read by
+    asyncssh as the same key with the same comment.  The readers are asked
+    lazily (when asyncssh's answer is not the intended one) and on a sample
+    of all rows (to show that the generator writes legal files)."""
+    import asyncssh
+    from cryptography.hazmat.primitives import serialization as ser
+    pubkts = [k for k in ('ed25519', 'rsa', 'ec256', 'ec384') if k in kts]
+    stats = {'rows': 0, 'asked': 0, 'reader_accepts': 0, 'reader_refuses': 0}
+    sample_every = 16 if quick else 2
+    cert = D.key(pubkts[0], 1).generate_user_certificate(
+        D.key(pubkts[0], 2), 'layout-cert', principals=['p'])
+
+    def keygen_rfc(data, blob):
+        f = scr.write('l.pub', data, 0o644)
+        rc, out, _ = D.keygen(['-i', '-m', 'RFC4716', '-f', f])
+        return rc == 0 and D.blob_of_line(out)[0] == blob
+
+    def pem_readers(data, kind, kt):
+        """-> names of the independent readers that read `data` as key kt"""
+        pk = D.key(kt).pyca_key
+        ref = D.pyca_public_der(pk.public_key())
+        ok = []
+        try:
+            if kind.startswith('pub'):
+                got = D.pyca_public_der(ser.load_pem_public_key(data))
+            elif kind == 'priv-openssh':
+                got = D.pyca_public_der(
+                    ser.load_ssh_private_key(data, None).public_key())
+            else:
+                got = D.pyca_public_der(
+                    ser.load_pem_private_key(data, None).public_key())
+            if got == ref:
+                ok.append('pyca')
+        except Exception:               # pylint: disable=broad-except
+            pass
+        if D.OPENSSL and kind != 'priv-openssh':
+            f = scr.write('l.pem', data)
+            args = ['pkey', '-in', f, '-pubout', '-outform', 'DER']
+            if kind.startswith('pub'):
+                args.insert(1, '-pubin')
+            rc, out, _ = D.openssl(args)
+            if rc == 0 and out == ref:
+                ok.append('openssl')
+        if D.SSH_KEYGEN and kind.startswith('priv'):
+            f = scr.write('l.key', data)
+            rc, out, _ = D.keygen(['-y', '-P', '', '-f', f])
+            if rc == 0 and D.blob_of_line(out)[0] == \
+                    D.key(kt).public_data:
+                ok.append('ssh-keygen')
+        return ok
+
+    for idx, (row, _, _) in enumerate(rows):
+        if not only.row('layout', row):
+            continue
+        stats['rows'] += 1
+        case = dict(row)
+        rp = {'kind': 'layout', 'row': row}
+        fmt = row['fmt']
+        sampled = idx % sample_every == 0
+        if fmt == 'rfc4716':
+            kt = pubkts[idx % len(pubkts)]
+            k = D.key(kt).convert_to_public()
+            use_cert = idx % 5 == 4
+            blob = cert.public_data if use_cert else k.public_data
+            data, want_c = D.rfc4716_layout(blob, row)
+            if data is None:
+                continue
+            ctx.count(('layout', idx), nontrivial=row['nl'] > 1 or
+                      len(row['hdrs']) > 1)
+            try:
+                obj = asyncssh.import_certificate(data) if use_cert else \
+                    asyncssh.import_public_key(data)
+                got_c = obj.get_comment_bytes() if obj.has_comment() else None
+                good = obj.public_data == blob
+                how = 'a different key' if not good else \
+                    f'comment {got_c!r} instead of {want_c!r}'
+                good = good and got_c == want_c
+            except Exception as exc:    # pylint: disable=broad-except
+                good = False
+                how = f'{type(exc).__name__}: {exc}'
+            if good and not sampled:
+                continue
+            # is the layout legal?  (same layout around a plain key)
+            kdata, _ = D.rfc4716_layout(k.public_data, row)
+            stats['asked'] += 1
+            legal = keygen_rfc(kdata, k.public_data)
+            stats['reader_accepts' if legal else 'reader_refuses'] += 1
+            if not good and legal:
+                ctx.violation(
+                    kf_sig('layout', reader='ssh-keygen', **case),
+                    f'RFC 4716 file that ssh-keygen -i reads is read by '
+                    f'asyncssh as {how} '
+                    f'({"certificate" if use_cert else kt}): {case}',
+                    dict(rp, data=data.decode('latin-1')))
+        elif fmt == 'pem':
+            kind = row['kind']
+            kt = {'pub-pkcs1': ['rsa'], 'priv-pkcs1': ['ec256', 'rsa'],
+                  'priv-openssh': ['ed25519', 'rsa', 'ec256']} \
+                .get(kind, ['ed25519', 'rsa', 'ec256'])
+            kt = [x for x in kt if x in kts]
+            kt = kt[idx % len(kt)]
+            pk = D.key(kt).pyca_key
+            if kind == 'pub-pkcs8':
+                der, typ = D.pyca_write_public(pk, 'pkcs8-der'), b'PUBLIC KEY'
+            elif kind == 'pub-pkcs1':
+                der, typ = D.pyca_write_public(pk, 'pkcs1-der'), \
+                    b'RSA PUBLIC KEY'
+            elif kind == 'priv-pkcs8':
+                der, typ = D.pyca_write_private(pk, 'pkcs8-der', None), \
+                    b'PRIVATE KEY'
+            elif kind == 'priv-pkcs1':
+                der = D.pyca_write_private(pk, 'pkcs1-der', None)
+                typ = b'RSA PRIVATE KEY' if kt == 'rsa' else b'EC PRIVATE KEY'
+            else:
+                pem = D.pyca_write_private(pk, 'openssh', None)
+                der = __import__('binascii').a2b_base64(
+                    b''.join(pem.splitlines()[1:-1]))
+                typ = b'OPENSSH PRIVATE KEY'
+            data = D.pem_layout(der, typ, row)
+            ctx.count(('layout', idx))
+            try:
+                if kind.startswith('pub'):
+                    obj = asyncssh.import_public_key(data)
+                    good = obj.public_data == D.key(kt).public_data
+                else:
+                    obj = D.imp_priv(data, None)
+                    good = D.same_private(obj, D.key(kt))
+                how = 'a different key'
+            except Exception as exc:    # pylint: disable=broad-except
+                good = False
+                how = f'{type(exc).__name__}: {exc}'
+            if good and not sampled:
+                continue
+            stats['asked'] += 1
+            readers = pem_readers(data, kind, kt)
+            stats['reader_accepts' if readers else 'reader_refuses'] += 1
+            if not good and readers:
+                ctx.violation(
+                    kf_sig('layout', reader=readers[0], **case),
+                    f'PEM file ({kt}) that {readers} read is read by asyncssh '
+                    f'as {how}: {case}',
+                    dict(rp, data=data.decode('latin-1')))
+        else:
+            kt = pubkts[idx % len(pubkts)]
+            k = D.key(kt).convert_to_public()
+            data, want_c = D.openssh_pub_layout(k.algorithm, k.public_data,
+                                                row)
+            ctx.count(('layout', idx))
+            try:
+                if row['opts']:
+                    ak = asyncssh.import_authorized_keys(data.decode('latin-1'))
+                    good = ak.validate(k, 'client.example',
+                                       '10.1.2.3') is not None
+                    how = 'a different key'
+                else:
+                    obj = asyncssh.import_public_key(data)
+                    got_c = obj.get_comment_bytes() if obj.has_comment() \
+                        else None
+                    good = obj.public_data == k.public_data
+                    how = 'a different key' if not good else \
+                        f'comment {got_c!r} instead of {want_c!r}'
+                    good = good and got_c == want_c
+            except Exception as exc:    # pylint: disable=broad-except
+                good = False
+                how = f'{type(exc).__name__}: {exc}'
+            if good and not sampled:
+                continue
+            stats['asked'] += 1
+            legal = False
+            if D.SSH_KEYGEN:
+                f = scr.write('l1.pub', data, 0o644)
+                rc, out, _ = D.keygen(['-l', '-f', f])
+                legal = rc == 0 and k.get_fingerprint().encode() in out
+            stats['reader_accepts' if legal else 'reader_refuses'] += 1
+            if not good and legal:
+                ctx.violation(
+                    kf_sig('layout', reader='ssh-keygen', **case),
+                    f'OpenSSH public key line that ssh-keygen -l reads is '
+                    f'read by asyncssh as {how} ({kt}): {case}',
+                    dict(rp, data=data.decode('latin-1')))
+    ctx.notes.append(f'foreign layouts: {stats}')
+    ctx.sample({'part': 'layout', 'rows': stats['rows'],
+                'readers_asked': stats['asked'],
+                'example': rows[len(rows) // 2][0]}, limit=9)
 
 
 def passphrase_sweep(ctx, D, scr, kts, quick, kf_sig, stats):
